@@ -333,6 +333,7 @@ struct Run {
   std::vector<std::array<int, 2>> ppOpen;   // (resume tick, -) pause pairs whose pause took effect
   // statistics
   bool frozen = false, destroyed = false;   // after the final stop: late control calls are ignored
+  bool twoBlocksInFlight = false;
   bool between = false, pauseBetween = false, anyTimeout = false, blockSeen = false, pausedFinishStored = false,
        resetUnderway = false, sleepAnomaly = false, nonquiescent = false, staleProbe = false;
   int nCtlApplied = 0;
@@ -456,7 +457,7 @@ struct Run {
       case EV_B:
         if (x.st == ST_IDLE) { fail(nn(n) + " accepted block() although it is idle (never started or reset): stale block"); staleProbe = true; }
         x.st = ST_PAUSE; blockSeen = true;
-        if (n == 0) { pendingBlockCb++; bump(EC_ROOT_BLOCK); } else if (leaf) bump(EC_LEAF_BLOCK);
+        if (n == 0) { if (pendingBlockCb > 0) twoBlocksInFlight = true; pendingBlockCb++; bump(EC_ROOT_BLOCK); } else if (leaf) bump(EC_LEAF_BLOCK);
         break;
       case EV_T:
         anyTimeout = true; if (!runs.empty()) runs.back().tmo = true;
@@ -847,7 +848,7 @@ std::string runTree(const Scenario &s, CaseInfo &info) {
   bool finished = false, stopped = false; for (auto &r : R.runs) { if (r.result >= 0) finished = true; if (r.stopped) stopped = true; }
   info.cls_if(R.between, "ctl_between_child_finish_and_parent_handling"); info.cls_if(R.pauseBetween, "pause_between_child_finish_and_parent_handling");
   info.cls_if(rerun, "reset_then_rerun"); info.cls_if(R.resetUnderway, "reset_while_under_way");
-  info.cls_if(R.anyTimeout, "timeout_fired"); info.cls_if(R.blockSeen, "leaf_blocked");
+  info.cls_if(R.twoBlocksInFlight, "two_root_block_notifications_in_flight"); info.cls_if(R.anyTimeout, "timeout_fired"); info.cls_if(R.blockSeen, "leaf_blocked");
   info.cls_if(R.pausedFinishStored, "child_finished_while_parent_paused");
   info.cls_if(finished, "root_finished"); info.cls_if(stopped, "root_stopped_under_way");
   info.cls_if(R.nonquiescent, "endless_loop"); info.cls_if(R.refCompared, "reference_result_compared");
@@ -860,7 +861,7 @@ std::string runTree(const Scenario &s, CaseInfo &info) {
 // ---------------------------------------------------------------------------------------------- sub `reset_meta`
 std::string runResetMeta(const Scenario &s, CaseInfo &info) {
   Tree T = parseTree(s, true, false); Script S = parseScript(s); S.pp.clear(); S.destroyAt = 0;
-  std::vector<Ent> ta, tb; std::string err; bool underway = false, prefixActivity = false;
+  std::vector<Ent> ta, tb; std::string err; bool underway = false, prefixActivity = false, twoBlocks = false;
   for (int pass = 0; pass < 2 && err.empty(); ++pass) {
     Env E; Run R(T, S, E.loop.get(), E.clk.now);
     R.buildTree();
@@ -870,7 +871,7 @@ std::string runResetMeta(const Scenario &s, CaseInfo &info) {
     if (!R.err.empty()) { err = std::string(pass ? "[prefix; reset; S] " : "[S on a fresh tree] ") + R.err; break; }
     auto &dst = pass ? tb : ta;
     for (size_t i = xi.mark; i < R.trace.size(); ++i) dst.push_back(Ent{R.trace[i].tick - xi.base, R.trace[i].node, R.trace[i].kind});
-    if (pass == 1) { underway = R.resetUnderway; prefixActivity = xi.mark > 4; }
+    if (pass == 1) { underway = R.resetUnderway; prefixActivity = xi.mark > 4; twoBlocks = R.twoBlocksInFlight; }
   }
   if (err.empty()) {
     size_t i = 0; while (i < ta.size() && i < tb.size() && ta[i] == tb[i]) ++i;
@@ -880,7 +881,7 @@ std::string runResetMeta(const Scenario &s, CaseInfo &info) {
     }
   }
   shapeClasses(T, info);
-  info.cls_if(underway, "reset_while_under_way"); info.cls_if(prefixActivity, "prefix_ran_something");
+  info.cls_if(underway, "reset_while_under_way"); info.cls_if(prefixActivity, "prefix_ran_something"); info.cls_if(twoBlocks, "two_root_block_notifications_in_flight");
   info.nontrivial = T.depth >= 2 && !isLeaf(T.n[0].kind) && prefixActivity && underway;
   return err;
 }
@@ -1002,18 +1003,19 @@ struct Rng {
 void mk(Scenario &sc, int code, std::vector<int64_t> a) { Op o; o.code = code; o.a = std::move(a); sc.ops.push_back(std::move(o)); }
 
 struct TreeGen {
-  Rng &g; Scenario &sc; int count = 0, budget; bool timeouts, sleeps; int leaves = 0;
-  TreeGen(Rng &r, Scenario &s, int b, bool t, bool sl) : g(r), sc(s), budget(b), timeouts(t), sleeps(sl) {}
+  Rng &g; Scenario &sc; int count = 0, budget; bool timeouts, sleeps; int leaves = 0; bool blocky;   // blocky: most Dummy leaves block first
+  TreeGen(Rng &r, Scenario &s, int b, bool t, bool sl, bool bl) : g(r), sc(s), budget(b), timeouts(t), sleeps(sl), blocky(bl) {}
   void node(int parent, int depth) {
     bool composite = depth < kMaxDepth && budget - count >= 2 && g.chance(depth == 1 ? 94 : depth == 2 ? 62 : 42);
     int kind;
-    if (composite) kind = (int)g.pick({{16, K_SEQ}, {18, K_PAR}, {8, K_IFELSE}, {7, K_IFTHEN}, {7, K_SWITCH}, {8, K_LOOP}, {6, K_LOOPIF}, {9, K_REPEAT}, {8, K_WRAPPER}, {6, K_COMPOSITE}});
-    else kind = (int)g.pick({{9, K_SUCC}, {7, K_FAIL}, {26, K_FUNC}, {48, K_DUMMY}, {sleeps ? 8 : 0, K_SLEEP}});
+    if (composite && blocky && depth == 1 && g.chance(55)) kind = K_PAR;
+    else if (composite) kind = (int)g.pick({{16, K_SEQ}, {18, K_PAR}, {8, K_IFELSE}, {7, K_IFTHEN}, {7, K_SWITCH}, {8, K_LOOP}, {6, K_LOOPIF}, {9, K_REPEAT}, {8, K_WRAPPER}, {6, K_COMPOSITE}});
+    else kind = (int)g.pick({{9, K_SUCC}, {7, K_FAIL}, {blocky ? 10 : 26, K_FUNC}, {blocky ? 70 : 48, K_DUMMY}, {sleeps ? 8 : 0, K_SLEEP}});
     int64_t mode = g.rng(0, 11);
     if (kind == K_LOOP) mode = g.pick({{12, 0}, {44, 1}, {44, 2}});
     int64_t mask = g.pick({{28, 0xff}, {12, 0}, {60, -1}}); if (mask < 0) mask = g.rng(0, 255);
     int64_t a = mask | (g.rng(0, 4095) << 8);
-    int64_t type = g.pick({{70, 0}, {20, 4}, {10, 7}});
+    int64_t type = blocky ? g.pick({{30, 0}, {64, 4}, {6, 7}}) : g.pick({{70, 0}, {20, 4}, {10, 7}});
     int64_t b = type + 8 * g.pick({{40, 0}, {25, 1}, {15, 2}, {10, 3}, {5, 4}, {5, 5}}) + 48 * g.rng(0, 3);
     int64_t tmo = 0;
     if (timeouts && g.chance(composite ? 14 : 7)) tmo = g.chance(55) ? g.rng(1, 40) : g.rng(41, 63);
@@ -1033,17 +1035,17 @@ struct TreeGen {
     for (int i = 0; i < nk; ++i) { if (count >= budget) break; node(me, depth + 1); }
   }
 };
-void genTree(Rng &g, Scenario &sc, bool timeouts, bool sleeps) {
+void genTree(Rng &g, Scenario &sc, bool timeouts, bool sleeps, bool blocky) {
   int budget = (int)g.pick({{6, 3}, {18, 6}, {30, 10}, {28, 14}, {18, 18}});
-  TreeGen tg(g, sc, budget, timeouts, sleeps);
+  TreeGen tg(g, sc, budget, timeouts, sleeps, blocky);
   tg.node(-1, 1);
 }
 int64_t genWhat(Rng &g) { return g.pick({{2, W_START}, {30, W_PAUSE}, {26, W_RESUME}, {22, W_STOP}, {12, W_RESET}}); }
 
 Scenario expandTree(int64_t seed) {
-  Rng g(seed); Scenario sc;
-  mk(sc, CFG, {g.pick({{18, 0}, {30, 1}, {30, 2}, {12, 3}, {10, 4}}), 0, g.chance(6) ? g.rng(1, 14) : 0});
-  genTree(g, sc, true, true);
+  Rng g(seed); Scenario sc; bool blocky = g.chance(14);
+  mk(sc, CFG, {blocky ? g.pick({{60, 1}, {25, 2}, {15, 0}}) : g.pick({{18, 0}, {30, 1}, {30, 2}, {12, 3}, {10, 4}}), 0, g.chance(6) ? g.rng(1, 14) : 0});
+  genTree(g, sc, true, true, blocky);
   mk(sc, CTL, {g.pick({{80, 0}, {15, 1}, {5, 3}}), W_START, 0});
   int style = (int)g.pick({{22, 0}, {78, 1}});
   if (style == 1) {
@@ -1075,9 +1077,9 @@ Scenario expandTree(int64_t seed) {
   return sc;
 }
 Scenario expandResetMeta(int64_t seed) {
-  Rng g(seed); Scenario sc;
-  mk(sc, CFG, {g.pick({{25, 0}, {30, 1}, {30, 2}, {15, 3}}), g.pick({{55, 0}, {45, 1}})});
-  genTree(g, sc, true, false);
+  Rng g(seed); Scenario sc; bool blocky = g.chance(14);
+  mk(sc, CFG, {blocky ? g.pick({{60, 1}, {25, 2}, {15, 0}}) : g.pick({{25, 0}, {30, 1}, {30, 2}, {15, 3}}), g.pick({{55, 0}, {45, 1}})});
+  genTree(g, sc, true, false, blocky);
   mk(sc, PRE, {0, W_START, 0});
   int np = (int)g.pick({{30, 0}, {35, 1}, {25, 2}, {10, 3}});
   for (int i = 0; i < np; ++i) mk(sc, PRE, {g.rng(1, 10), genWhat(g), g.rng(0, 1)});
@@ -1091,7 +1093,7 @@ Scenario expandResetMeta(int64_t seed) {
 Scenario expandPauseMeta(int64_t seed) {
   Rng g(seed); Scenario sc;
   mk(sc, CFG, {g.pick({{10, 0}, {35, 1}, {35, 2}, {20, 3}}), 0});
-  genTree(g, sc, false, false);
+  genTree(g, sc, false, false, g.chance(14));
   mk(sc, CTL, {0, W_START, 0});
   int np = (int)g.pick({{45, 1}, {35, 2}, {20, 4}});
   for (int i = 0; i < np; ++i) mk(sc, PP, {g.rng(0, 12), g.pick({{30, 0}, {30, 1}, {25, 2}, {15, 5}}), g.rng(0, 1)});
